@@ -33,9 +33,11 @@ inside the run and rearranged, next to a second scaffold to join to.
 
 import contextlib
 import itertools
+import logging
 import math
 import pathlib
 import random
+import re
 import shutil
 import tempfile
 from fractions import Fraction
@@ -80,6 +82,83 @@ def reported_info(run):
     return info if isinstance(info, dict) else {}
 
 
+# --------------------------------------------------------------------------------------------------
+# the log line 'Curation made ...': the third place where the numbers are reported
+# --------------------------------------------------------------------------------------------------
+
+
+class _Lines(logging.Handler):
+    def __init__(self):
+        super().__init__(logging.DEBUG)
+        self.lines = []
+
+    def emit(self, record):
+        self.lines.extend(record.getMessage().splitlines())
+
+
+@contextlib.contextmanager
+def captured_log():
+    """
+    the root logger as pretext-to-asm sets it up by default (level INFO, messages unchanged), but writing into a list:
+    yields the list of logged lines.  The handlers, the level and the disable mark it finds are put back.
+    """
+    root = logging.getLogger()
+    saved = (list(root.handlers), root.level, root.manager.disable)
+    h = _Lines()
+    root.handlers[:] = [h]
+    root.setLevel(logging.INFO)
+    logging.disable(logging.NOTSET)
+    try:
+        yield h.lines
+    finally:
+        root.handlers[:] = saved[0]
+        root.setLevel(saved[1])
+        logging.disable(saved[2])
+
+
+NUMBER_WORDS = {"no": 0, "zero": 0, "a": 1, "an": 1, "one": 1, "two": 2, "three": 3}
+
+
+def stated_count(line, noun):
+    """
+    the number which a line of prose states for `noun` ("... 3 cuts in contigs", "1 break at a gap", "no joins"): the word
+    in front of the first cut / cuts (break / breaks, join / joins), read as a decimal number (thousands separators
+    allowed) or a number word.  None if the line does not state one.
+    """
+    m = re.search(rf"(\S+)\s+(?:manual\s+)?{noun}s?\b", line, re.IGNORECASE)
+    if not m:
+        return None
+    word = m.group(1).strip("(:;")
+    if re.fullmatch(r"\d{1,3}([,_]\d{3})+|\d+", word):
+        return int(re.sub(r"[,_]", "", word))
+    return NUMBER_WORDS.get(word.lower())
+
+
+def log_line_problems(lines, want, detail):
+    """
+    lines: what was logged; want: {"cut": n, "break": n, "join": n} by the recount.  The line 'Curation made ...' is
+    there once and states the three numbers.
+    """
+    found = [ln for ln in lines if re.match(r"\s*curation made\b", ln, re.IGNORECASE)]
+    if len(found) != 1:
+        return [f"{len(found)} lines 'Curation made ...' in the log ({found if found else lines[:5]})"]
+    problems = []
+    for noun, n in want.items():
+        got = stated_count(found[0], noun)
+        if got is None:
+            problems.append(f"log line {found[0]!r} states no number of {noun}s (recount: {n})")
+        elif got != n:
+            problems.append(f"log line {found[0]!r} states {got} {noun}{'' if got == 1 else 's'}, recount: {n}{detail.get(noun, '')}")
+    return problems
+
+
+def logged_by_stats(run):
+    """the lines which AssemblyStats.log_curation_stats(), called as cli() calls it once the output is made, logs for this run"""
+    with captured_log() as lines:
+        run.build.assembly_stats.log_curation_stats()
+    return lines
+
+
 def has_special_tag(case):
     return any(t in pg.SPECIAL_TAGS for sc in case["map"]["scaffolds"] for p in sc for t in p[4])
 
@@ -116,6 +195,12 @@ def check(case, col):
         problems.append(f"breaks reported {run.breaks}, recount {breaks} (input adjacencies gone: {fmt(in_adj - out_adj)})")
     if run.joins != joins:
         problems.append(f"joins reported {run.joins}, recount {joins} (new output adjacencies: {fmt(out_adj - in_adj)})")
+    # the log line: its three numbers are those of the recount, whatever the statistics object holds
+    problems += log_line_problems(
+        logged_by_stats(run),
+        {"cut": cuts, "break": breaks, "join": joins},
+        {"break": f" (input adjacencies gone: {fmt(in_adj - out_adj)})", "join": f" (new output adjacencies: {fmt(out_adj - in_adj)})"},
+    )
     # haplotig removals: the number in *.info.yaml against the scaffolds of the Haplotig assembly that is written
     hap_scaffolds = run.out.get("Haplotig", {"scaffolds": []})["scaffolds"]
     if case.get("yaml"):
